@@ -58,6 +58,7 @@ type World struct {
 	cnt    map[string]int // hook counters
 	cntCh  chan struct{}
 	gossip []*GossipMsg
+	mounts map[string]bool
 	sentTo map[[2]int]bool
 	ngoss  int
 }
@@ -146,6 +147,18 @@ func (w *World) Levels(topic string) []string {
 // SplitMounted splits a broker-internal topic "<mount>/<topic>" into the mount point and the
 // level sequence of the client-facing topic.
 func (w *World) SplitMounted(mounted string) (string, []string) {
+	// mount points may themselves contain '/': prefer the longest mount point some session was placed in
+	w.mu.Lock()
+	best := ""
+	for m := range w.mounts {
+		if len(m) > len(best) && strings.HasPrefix(mounted, m+"/") {
+			best = m
+		}
+	}
+	w.mu.Unlock()
+	if best != "" {
+		return best, w.Levels(mounted[len(best)+1:])
+	}
 	i := strings.IndexByte(mounted, '/')
 	if i < 0 {
 		return "", []string{"?no mount point", mounted}
@@ -333,6 +346,14 @@ func (a authWrap) Authenticate(ctx context.Context, m auth.ApplicationContext, t
 	}
 	// deterministic session identifiers: the harness names the connection in RemoteAddress
 	p.ID = "s" + strings.TrimPrefix(t.RemoteAddress, "c")
+	if err == nil {
+		a.w.mu.Lock()
+		if a.w.mounts == nil {
+			a.w.mounts = map[string]bool{}
+		}
+		a.w.mounts[p.MountPoint] = true
+		a.w.mu.Unlock()
+	}
 	a.w.R.Emit(rec.Ev{"op": "auth", "s": p.ID, "user": string(m.Username), "ok": err == nil, "mount": p.MountPoint})
 	return p, err
 }
